@@ -251,6 +251,13 @@ def stat_job(job):
         pos = [[1.0 + 2.0 * i, 2.0, 3.0] for i in range(n)]
         vel = [[0.0] * 3 for _ in range(n)]
         Te = T if engine != "turtlemd" else T / 300.0
+        # another engine of the same class, temperature and size but other masses has drawn before in this process
+        # (multi-engine set-ups): nothing of it may leak into this engine's distribution
+        decoy_idx = [(i + 2) % 5 for i in masses_idx]
+        if decoy_idx != list(masses_idx) and engine != "lammps":
+            deng, dsrc, _, _, _ = setup(engine, os.path.join(root, "decoy"), decoy_idx, pos, vel, Te, False, ase_integ)
+            deng.rgen = np.random.default_rng(seed + 7)
+            deng.modify_velocities(ek.system_for(dsrc, 0), {"zero_momentum": zm})
         eng, src, masses, reader, _ = setup(engine, root, masses_idx, pos, vel, Te, int_masses, ase_integ)
         eng.rgen = np.random.default_rng(seed)
         kbt = kb_of(engine) * Te
